@@ -193,6 +193,10 @@ func (s *session) start(trigger flows.Trigger) (flows.Sprint, error) {
 func (s *session) Resume(resume flows.Resume) (flows.Sprint, error) {
 	sprint := newEmptySprint()
 
+	// only the first sprint is part of a batch start - this isn't persisted so a session that has been marshaled and
+	// read back doesn't have it either
+	s.batchStart = false
+
 	if err := s.prepareForSprint(); err != nil {
 		return sprint, err
 	}
